@@ -253,6 +253,18 @@ class Session:
         self._metas.append(meta)
         return meta
 
+    def drive_soft(self, name, **kw):
+        """A driver whose records only feed mechanism-drift notes: when it cannot run on this tree (the in-process API moved,
+        a table it walks changed) that is drift too, not a reason to leave the property undecided."""
+        try:
+            return self.drive(name, **kw)
+        except Undecided as e:
+            msg = "MECHANISM-DRIFT driver %s: could not be run on this tree (%s); its mechanism model stops counting as evidence for this run" % (name, str(e)[:200].replace("\n", " "))
+            print(msg, flush=True)
+            self.notes.append(msg)
+            self.drift.append({"trace_spec": "driver " + name, "invariant": "driver failed", "record": str(e)[:500]})
+            return None
+
     def validate(self, meta, module, cfg=None, known=(), timeout=1800, heap="3g", shard=60000, extra_files=(), par=8, constants=None,
                  drift=False):
         """Trace validation: TLC checks every record the driver observed against the trace spec (records are
